@@ -848,10 +848,17 @@ def c15(tier, seed):
                               env_extra={"TRACE": out, "JAVA_TOOL_OPTIONS": "-Xss1g -Xmx4g"})
     rej = core.tagged_lines(text, "TRACE-REJECT")
     acc = core.tagged_lines(text, "ACCEPTED")
+    if not rej and not acc and "Evaluating invariant StatOK failed" in text:
+        # a recorded table on which the predicate cannot even be evaluated (a processing order that is not a permutation of the
+        # batch: too short, an index twice): every table recorded from the unchanged code evaluates, so this is a rejection
+        msg = text[text.index("Evaluating invariant StatOK failed"):][:300].replace("\n", " ")
+        rej = [{"at": 0, "why": "MALFORMED", "event": {"kind": "malformed table", "detail": msg}}]
     if "BijectionOK is violated" in text:
         raise ToolError("C15: the Fisher-Yates model is not a bijection (specification error)")
     if rej:
-        what = ("the processing order is not a function of the generator state and the batch size alone: %s" if str(rej[0].get("event", {}).get("kind", "")).startswith("det")
+        kind = str(rej[0].get("event", {}).get("kind", ""))
+        what = ("the processing order is not a function of the generator state and the batch size alone: %s" if kind.startswith("det")
+                else "a recorded processing order is not a permutation of the batch (the table cannot be evaluated): %s" if kind.startswith("malformed")
                 else "recorded schedule statistics outside the exact concentration bound: %s")
         ck.violation("histograms", what % json.dumps(rej[0])[:500],
                      {"kind": "histogram", "reject": rej[0], "seed": seed, "tables_file": out, "L": L, "cells": K})
